@@ -376,12 +376,15 @@ fn _u(_: Fq) -> bool {
     Fq::zero().is_zero()
 }
 
+crate::long_sub!(run_long_history, [7, 8]);
+
 pub fn def() -> PropDef {
     PropDef {
         id: "C16",
         rule: "points of the isogenous curves E1'(Fq), E2'(Fq2): identity (canonical and junk representatives), uniform full-curve points, points of each small prime order, (G1) order-121 points S and the rational kernel points [11k]S, SSWU images of generated field elements, negations and model sums of these, in generated Jacobian representatives (Z = 1, -1, uniform lambda); pairs (P, Q) incl. Q = P, Q = -P, Q = P + T with T in the kernel. Oracle: model rational map with the frozen RFC coefficient tables evaluated in affine coordinates, image on the target curve, identity and kernel points map to the identity, representative independence, homomorphism with the sum taken by the model law on E' (a != 0). Non-trivial = non-identity point in a representative with Z != 1; distinct = distinct cases",
         needs_pairing: false,
         subs: vec![
+            Box::new(crate::engine::EnumSub { name: "long-history", rule: super::longhist::RULE, run: run_long_history, replay: super::longhist::replay, exhaustive: false }),
             Box::new(Sub { name: "g1-iso11", rule: "11-isogeny E1' -> E vs model rational map; homomorphism", quick: 12_000, thorough: 50_000, strategy: || boxed(iso_case_strategy(0)), check: check_iso_any }),
             Box::new(Sub { name: "g2-iso3", rule: "3-isogeny E2' -> E' vs model rational map; homomorphism", quick: 12_000, thorough: 50_000, strategy: || boxed(iso_case_strategy(1)), check: check_iso_any }),
             Box::new(Sub { name: "related-sequences", rule: "the same point in other representatives / negated / again, evaluated back to back, each compared with the model", quick: 1_500, thorough: 30_000, strategy: || boxed(iso_seq_strategy()), check: check_iso_seq }),
